@@ -1,7 +1,7 @@
 (* All equivalence proofs between the translated Go functions (Gen/Translated.v) and the hand-written models.
    Each Props/Cxx.v requires only its own file; this one is the whole layer (make Xlate/Tie.vo). *)
 From TarsV Require Xlate.TarsRequestEquiv Xlate.CodecEquiv Xlate.ParseEquiv Xlate.BSWLEquiv Xlate.CheckActiveEquiv
-  Xlate.ReaderEquiv Xlate.ReaderSliceEquiv Xlate.ReqIdEquiv Xlate.SelectEquiv Xlate.ConHashEquiv Xlate.FloatEquiv Xlate.TimeWheelEquiv.
+  Xlate.ReaderEquiv Xlate.ReaderSliceEquiv Xlate.ReqIdEquiv Xlate.SelectEquiv Xlate.ConHashEquiv Xlate.FloatEquiv Xlate.TimeWheelEquiv Xlate.SWRREquiv.
 
 Print Assumptions TarsRequestEquiv.tr_TarsRequest_equiv.
 Print Assumptions CodecEquiv.tr_WriteHead_equiv.
@@ -41,3 +41,5 @@ Print Assumptions GoSemFacts.go_search_least.
 Print Assumptions FloatEquiv.tr_WriteFloat64_equiv.
 Print Assumptions FloatEquiv.tr_ReadFloat_total.
 Print Assumptions TimeWheelEquiv.tr_tw_After_pos_equiv.
+Print Assumptions SWRREquiv.tr_BSWL_rounds_equiv.
+Print Assumptions SWRREquiv.tr_BSWL_rounds_model.
